@@ -70,8 +70,8 @@ T == ("short"  :> Ty("int", "int", 2, 1, 16, "", 0)) @@
 UScalar == {"short", "int", "long", "uint", "ulong", "bint", "float", "double", "fc", "dc", "object", "list"}
 UAll    == UScalar \cup {"mvi", "mvl", "mvf", "mvd", "mvd2"}
 UQuick  == {"short", "int", "long", "ulong", "bint", "float", "double", "dc", "object", "list", "mvi", "mvd", "mvd2"}
-UMulti  == {"int", "long", "uint", "bint", "double", "dc", "object", "list", "mvd", "mvi"}
-UMultiQ == {"int", "long", "bint", "double", "object", "mvd"}
+UMulti  == {"int", "long", "uint", "bint", "double", "object", "mvd"}
+UMultiQ == {"int", "double", "object", "mvd"}
 UNum    == {"short", "int", "long", "uint", "ulong", "bint", "float", "double", "fc", "dc", "object"}
 UNone   == {}
 
@@ -260,7 +260,8 @@ WeakOrder(S, fl) == /\ \A x, y \in S : ~(Lt(x, y, fl) /\ Lt(y, x, fl))
                     /\ \A x, y, z \in S : Incomp(x, y, fl) /\ Incomp(y, z, fl) => Incomp(x, z, fl)
 FAll(b) == [k \in FK |-> b]
 RefinesRank(S) == \A x, y \in S : T[x].py = T[y].py /\ T[x].r > T[y].r => Lt(x, y, FAll(FALSE))
-HzSort(F)      == ~WeakOrder(NumOf(F), FAll(FALSE)) \/ ~RefinesRank(NumOf(F))
+NonBuf(F) == {m \in Range(F) : T[m].k # "buf"}
+HzSort(F)      == ~WeakOrder(NonBuf(F), FAll(FALSE)) \/ ~RefinesRank(NumOf(F))
 HzIdSort(F, fl) == HasBuf(F) /\ ~WeakOrder(Range(F), fl)
 HzBool(F, a)   == A[a].cls = "bool" /\ "bint" \in Range(F) /\ \E m \in Range(F) : T[m].k = "int"
 HzOne(F, a, fl) == (IF HzSort(F) /\ (\E m \in Range(F) : Corr(m, a)) THEN {"sort"} ELSE {})
@@ -296,11 +297,22 @@ ReplayDecls == IF Part = "replay" THEN [i \in 1..(Len(In) - 1) |-> In[i + 1]] EL
 HasNum(F) == NumOf(F) # {}
 FlagChoices(d) == IF Part = "replay" THEN {MeasuredFlags}
                   ELSE IF (HasBuf(d.f1) /\ HasNum(d.f1)) \/ (d.mode = "two" /\ HasBuf(d.f2) /\ HasNum(d.f2))
-                  THEN {FAll(FALSE), FAll(TRUE), [FAll(FALSE) EXCEPT !["int"] = TRUE], [FAll(FALSE) EXCEPT !["float"] = TRUE]}
+                  THEN (IF Part = "multi" THEN {FAll(FALSE), FAll(TRUE)}
+                        ELSE {FAll(FALSE), FAll(TRUE), [FAll(FALSE) EXCEPT !["int"] = TRUE], [FAll(FALSE) EXCEPT !["float"] = TRUE]})
                   ELSE {FAll(FALSE)}
 \* keys tried by explicit indexing: every signature, plus names that are not members
 KeysOf(d) == Sigs(d) \cup (IF NF(d) = 1 THEN {<<"char">>, <<d.f1[1], d.f1[1]>>} \cup {<<m>> : m \in {"int", "double", "object"}}
                            ELSE {<<d.f1[1]>>, <<d.f2[1], d.f1[1]>>, <<d.f1[1], "char">>})
+
+(* the dispatcher as one function of the case (the actions below compute the   *)
+(* same thing step by step: invariant StepsAreImplCall)                        *)
+ImplDest(dd, aa, g) == [i \in 1..NF(dd) |-> ImplMap(Fu(dd, i), ArgOf(dd, aa, i), g)]
+ImplCall(dd, aa, g) ==
+  LET ds == ImplDest(dd, aa, g)
+      ms == {s \in Sigs(dd) : \A i \in 1..NF(dd) : (NF(dd) = 2 /\ ds[i] = "None") \/ ds[i] = s[i]}
+  IN IF Cardinality(ms) = 1 THEN ConvOut(CHOOSE s \in ms : TRUE, Par(dd), aa) ELSE Exc("TypeError")
+AltFlags == {FAll(FALSE), FAll(TRUE), [FAll(FALSE) EXCEPT !["int"] = TRUE], [FAll(FALSE) EXCEPT !["float"] = TRUE],
+             [FAll(TRUE) EXCEPT !["int"] = FALSE], [FAll(TRUE) EXCEPT !["float"] = FALSE]}
 
 VARIABLES id, d, op, key, args, fl, pc, dest, fn, out
 vars == <<id, d, op, key, args, fl, pc, dest, fn, out>>
@@ -310,7 +322,8 @@ ArgsFor(F) == IF HasBuf(F) THEN ArgsOne ELSE ArgsOne \cap (AScalar \cup {"ndf8",
 ArgTuples(dd) == IF dd.mode = "one" THEN {<<a>> : a \in ArgsFor(dd.f1)}
                  ELSE IF dd.mode = "same" THEN {<<a, b>> : a \in ArgsFor(dd.f1), b \in ArgsPair}
                  ELSE {<<a, b>> : a \in ArgsPair, b \in ArgsPair}
-IdxArgTuples(dd) == IF dd.mode = "one" THEN {<<a>> : a \in ArgsPair} ELSE {<<a, b>> : a \in {"i3", "f15", "ndf8"} \cap ArgsPair, b \in ArgsPair}
+IdxArgTuples(dd) == IF dd.mode = "one" THEN {<<a>> : a \in ArgsPair}
+                    ELSE {<<a, b>> : a \in {"i3"}, b \in {"i3", "f15", "str", "ndf8"} \cap ArgsPair}
 OneDecls == {Decl("one", f, <<>>) : f \in Seqs(UNames, 2) \cup Seqs(UNames3, MaxLen)}
 SweepDecls == CASE Part = "one" -> OneDecls
                 [] Part = "multi" -> {Decl("two", f, g) : f \in Seqs(UNames, 2), g \in Seqs(UNames, 2)}
@@ -393,6 +406,7 @@ RefConvOK == op = "call" /\ d.mode = "one" /\ dest = <<>> /\ pc = "map" =>
 ImplAgrees == pc = "done" /\ op # "split" => (Agrees \/ HzNow # {})
 (* strict variant: expected to be VIOLATED (the hazard classes are inhabited) *)
 ImplAgreesStrict == pc = "done" /\ op # "split" => Agrees
+StepsAreImplCall == pc = "done" /\ op = "call" => out = ImplCall(d, args, fl)
 (* the sort puts every member somewhere and Split loses none *)
 SplitSound == LET sp == Split(d.f1, fl) IN
    /\ Range(PySort(d.f1, fl)) = Range(d.f1) /\ Len(PySort(d.f1, fl)) = Len(d.f1)
@@ -414,5 +428,7 @@ PublishSplit == Part = "split" =>
                           hzsort |-> HzSort(d.f1), hzid |-> (HasBuf(d.f1) /\ \E g \in {FAll(TRUE), [FAll(FALSE) EXCEPT !["int"] = TRUE], [FAll(FALSE) EXCEPT !["float"] = TRUE]} : ~WeakOrder(Range(d.f1), g))]))
 PublishReplay == Part = "replay" /\ pc = "done" =>
    PrintT("@@" \o ToJson([id |-> id, op |-> op, key |-> key, args |-> args, want |-> SetSeq(Want), impl |-> out,
-                          hz |-> SetSeq(IF Agrees THEN {} ELSE HzNow), dest |-> dest, fn |-> fn]))
+                          hz |-> SetSeq(IF Agrees THEN {} ELSE HzNow), dest |-> dest, fn |-> fn,
+                          alts |-> SetSeq(IF op = "call" /\ (HasBuf(d.f1) \/ (d.mode = "two" /\ HasBuf(d.f2)))
+                                          THEN {ImplCall(d, args, g) : g \in AltFlags} \ {out} ELSE {})]))
 =============================================================================
